@@ -3,8 +3,9 @@
 # (scratch worktree per change, removed afterwards) and print one line per change: caught / MISSED / does-not-apply.
 # Nothing under /verif/seeded is modified; the table goes to stdout.
 pat=${1:-*}
+base=$(cd "$(dirname "$0")/.." && pwd)   # (works from a snapshot of /verif too)
 export GOFLAGS=-mod=mod GOPROXY=off GOSUMDB=off GOTOOLCHAIN=local
-for d in /verif/seeded/$pat/; do
+for d in $base/seeded/$pat/; do
   id=$(basename "$d"); prop=${id%%-*}
   [ -f "$d/patch.diff" ] || continue
   w=$(mktemp -d /tmp/sweep-XXXXXX)
@@ -14,7 +15,7 @@ for d in /verif/seeded/$pat/; do
   elif ! (cd "$w/wt" && go build ./... >/dev/null 2>&1); then
     echo "$id does-not-build"
   else
-    /verif/bin/vcheck "$prop" --repo "$w/wt" > "$w/out.txt" 2>&1; code=$?
+    "$base/bin/vcheck" "$prop" --repo "$w/wt" > "$w/out.txt" 2>&1; code=$?
     if [ $code -eq 1 ]; then echo "$id caught $(grep -A1 '^VIOLATION' "$w/out.txt" | grep -o 'class=[^ ]*' | sort -u | head -3 | tr '\n' ' ')"
     elif [ $code -eq 0 ]; then echo "$id MISSED"
     else echo "$id trouble(exit $code) $(tail -1 "$w/out.txt" | cut -c1-120)"; fi
